@@ -723,3 +723,56 @@ Proof.
   eexists. exists repr. split; [reflexivity|].
   split; [congruence|]. split; [exact Hlen|]. split; [exact F1|]. split; congruence.
 Qed.
+
+(* PROGRESS STEP (acknowledgement side).  A segment that is not dropped by one of the early returns
+   of process() (it ran through all seven phases: its tag list has seven entries) and carries an
+   acknowledgement number leaves SND.UNA equal to that number, which is never behind the old
+   SND.UNA: acknowledged sequence space is never lost, and an acknowledgement of new data advances
+   SND.UNA strictly. *)
+Theorem snd_una_follows_ack : forall cx s ip r s' reply tags a,
+  ctx_ok cx -> seg_ok r -> tcp_live_inv s ->
+  tcp_process cx s ip r = Ok (s', reply, tags) ->
+  length tags = 7%nat -> r_ack_number r = Some a ->
+  s_local_seq_no s' = a /\
+  (a = s_local_seq_no s \/ seq_lt (s_local_seq_no s) a = true).
+Proof.
+  intros cx s ip r s' reply tags a Hcx Hseg I H Hlen Ha. unfold tcp_process in H.
+  destruct (negb (tcp_accepts s ip r)); [discriminate|].
+  obind_inv H. rename a0 into p1. rename E into H1.
+  destruct p1 as [t1 []|t1 s1 rep1]; [|inversion H; subst; discriminate].
+  obind_inv H. rename a0 into p2. rename E into H2.
+  pose proof (process_window_spec _ _ _ _ _ H2 I) as P2.
+  destruct p2 as [t2 ((s2, payload), off)|t2 s2r rep2]; [|inversion H; subst; discriminate].
+  pose proof (inv_core_eq _ _ P2 I) as I2.
+  destruct P2 as (C1 & C2 & C3 & C4 & C5 & C6 & C7 & C8 & C9 & C10).
+  obind_inv H. destruct a0 as ((al, aof), aall).
+  obind_inv H. rename a0 into p3. rename E0 into H3.
+  destruct p3 as [t3 s3|t3 s3r rep3]; [|inversion H; subst; discriminate].
+  pose proof (transition_cont_not_rst _ _ _ _ _ _ _ _ _ H3) as Hnr.
+  destruct (quash_spec s2 r) as (Qr & Qs & _).
+  assert (Hrst : r_control r <> CRst) by (intros X; apply Hnr; apply Qr; exact X).
+  destruct (transition_cont _ _ _ _ _ _ _ _ _ H3 (inv_weak _ I2) Hcx Hseg) as (W3 & _).
+  obind_inv H. destruct a0 as (s4, wu). rename E0 into H4.
+  destruct (update_remote_spec _ _ _ _ _ _ H4 W3 Hseg) as (W4 & _).
+  obind_inv H. destruct a0 as (s5, t5). rename E0 into H5.
+  destruct (dup_ack_spec _ _ _ _ _ _ _ H5 W4 Hseg) as (_ & _ & _ & _ & _ & _ & Seq5).
+  rewrite Ha in Seq5. destruct Seq5 as (U5 & _).
+  set (q5 := match r_timestamp r with
+             | Some (tsval, _) => upd_last_remote_tsval s5 tsval
+             | None => s5
+             end) in *.
+  assert (D5 : s_local_seq_no q5 = s_local_seq_no s5).
+  { unfold q5. destruct (r_timestamp r) as [(tv, te)|]; sproj; reflexivity. }
+  clearbody q5.
+  pose proof (timers_spec cx q5 al aall) as P6.
+  destruct (tcp_process_timers cx q5 al aall) as (s6, t6). cbn [fst] in P6.
+  destruct P6 as ((_ & _ & _ & F4 & _) & _).
+  pose proof (zwp_spec cx s6 al) as P7.
+  destruct (tcp_process_zwp cx s6 al) as (s7, t7). cbn [fst] in P7.
+  destruct P7 as ((_ & _ & _ & G4 & _) & _).
+  obind_inv H. destruct a0 as ((s8, rep8), t8). rename E0 into H8.
+  destruct (payload_core _ _ _ _ _ _ _ _ _ H8) as (_ & _ & _ & _ & P5 & _).
+  inversion H; subst s'. split; [congruence|].
+  destruct (ack_check_fresh _ _ _ _ _ H1 (li_una s I) Hseg Hrst) as (_ & _ & Afr & _).
+  exact (Afr a Ha).
+Qed.
